@@ -1,9 +1,10 @@
 import os
 from driver import Leg
 
-# VERIF_C08_MASK=pynames,umzero,pyexample silences the three defects found on the pinned tree (each is then counted as a
-# masked_* observation instead of being reported under its own key).  Default: strict, nothing masked; the defects are
-# expected to be listed in known_findings.json (or repaired in /repo).
+# The three defects this check found on the pinned tree (message.py FlattenedSize() with non-ASCII field names, message.py
+# length of str items in user-typed fields, UMFindData on a zero-length last item) are repaired in /repo; each keeps its
+# stable key and a fixed witness in the regress leg, and the random repertoire includes those corners.
+# VERIF_C08_MASK=pynames,umzero,pyexample exists only to judge a tree OLDER than those repairs (counted as masked_*); default: strict.
 _MASK = os.environ.get('VERIF_C08_MASK', '')
 
 
@@ -16,7 +17,7 @@ SPEC = dict(
     level='exploration',
     design_ref='DESIGN.md section 3, C08',
     rule=("wire: one case = one random abstract script (what code, 0-60 uniquely named fields of the 12 common types, 1-3000 items, "
-          "nesting <= 6, empty names/strings/raw items, UTF-8, NaN payloads, +-0/inf/denormals, integer extremes) built NATIVELY as C++ Message, "
+          "nesting <= 6, empty names/strings/raw items, UTF-8 incl. non-ASCII field names, user type codes, NaN payloads, +-0/inf/denormals, integer extremes) built NATIVELY as C++ Message, "
           "C MMessage, C UMessage, Python message.Message and by the reference codec ref/codec.py (written from the layout comment only); "
           "all byte strings must be identical, every implementation must read the C++ bytes back to the script's content through its own "
           "getters and re-serialise them identically, and C++ must do the same with the C codecs' bytes; a case is non-trivial when the "
@@ -31,18 +32,19 @@ SPEC = dict(
                  'g++ 12 ASan/UBSan/LSan report what they claim to report; the misaligned link pointer in MiniMessageGateway.c is allow-listed (DESIGN.md 2.1)'],
     legs=[
         Leg('regress', 'h_wire', 'asan', opts=_o(mode='regress'), quick=5, thorough=5, workers=1, leaks=True, min_cases=5),
-        Leg('wire', 'h_wire', 'asan', opts=_o(mode='wire'), quick=24000, thorough=1200000, workers=16, leaks=True),
-        Leg('frame', 'h_wire', 'asan', opts=_o(mode='frame'), quick=480, thorough=16000, workers=16, leaks=True, per_worker_min=10),
-        Leg('memcheck', 'h_wire', 'plain', opts=_o(mode='wire'), quick=480, thorough=9600, workers=16, valgrind=True),
+        Leg('wire', 'h_wire', 'asan', opts=_o(mode='wire'), quick=300000, thorough=9000000, workers=16, leaks=True),
+        Leg('frame', 'h_wire', 'asan', opts=_o(mode='frame'), quick=3200, thorough=96000, workers=16, leaks=True, per_worker_min=10),
+        Leg('memcheck', 'h_wire', 'plain', opts=_o(mode='wire'), quick=1600, thorough=32000, workers=16, valgrind=True),
     ],
     min_stats={
-        'wire': {'py_native_built': 10000, 'py_parsed_cpp_bytes': 10000, 'ref_encoded': 20000, 'ref_decoded': 20000,
-                 'mini_built_parsed_reflattened': 20000, 'micro_built_parsed_reflattened': 20000,
-                 'msgs_with_nesting': 2000, 'nan_float_double_items': 1000, 'zero_length_raw_items': 500, 'empty_field_names': 500,
-                 'empty_strings': 500, 'non_ascii_utf8_strings': 500, 'multi_item_fields': 10000,
-                 'items_bool': 1000, 'items_i8': 1000, 'items_i16': 1000, 'items_i32': 1000, 'items_i64': 1000, 'items_f32': 1000, 'items_f64': 1000,
-                 'items_str': 1000, 'items_pt': 1000, 'items_rc': 1000, 'items_raw': 1000, 'items_msg': 1000},
-        'frame': {'frames_compared_in_memory': 500, 'frames_echoed_by_python': 500, 'python_echo_peers_started': 1},
+        'wire': {'py_native_built': 40000, 'py_parsed_cpp_bytes': 40000, 'ref_encoded': 80000, 'ref_decoded': 80000,
+                 'mini_built_parsed_reflattened': 80000, 'micro_built_parsed_reflattened': 80000,
+                 'msgs_with_nesting': 8000, 'nan_float_double_items': 4000, 'zero_length_raw_items': 2000, 'empty_field_names': 2000,
+                 'empty_strings': 2000, 'non_ascii_utf8_strings': 2000, 'multi_item_fields': 40000, 'msgs_with_non_ascii_field_names': 2000,
+                 'user_typed_fields': 2000, 'py_str_items_in_user_typed_field': 2000,
+                 'items_bool': 4000, 'items_i8': 4000, 'items_i16': 4000, 'items_i32': 4000, 'items_i64': 4000, 'items_f32': 4000, 'items_f64': 4000,
+                 'items_str': 4000, 'items_pt': 4000, 'items_rc': 4000, 'items_raw': 4000, 'items_msg': 4000},
+        'frame': {'frames_compared_in_memory': 2000, 'frames_echoed_by_python': 2000, 'python_echo_peers_started': 1},
         'regress': {'python_documentation_example_checked': 1, 'documented_frame_checked': 1},
     },
 )
